@@ -130,6 +130,7 @@ let handle op args = match op, args with
   | "ring", size :: ops -> run_ring (int_of_string size) ops
   | "lrumt", _ -> "ok"
   | "powhit", _ -> "ok"
+  | "serial", _ -> "ok"
   | "blk", _ :: ops -> "ok " ^ string_of_int (List.length ops)
   | "pow", _ :: _ :: _ :: _ :: ops -> "ok " ^ string_of_int (List.length ops)
   | "check", workers :: seed :: _ :: spec :: dup :: stopmode :: rounds :: rest ->
